@@ -128,12 +128,12 @@ def c10_jobs(tier):
     kinds = [0, 1, 2, 3] if tier == "quick" else [0, 1, 2, 3, 4, 5, 6, 7]
     shapes = [(3, 3)] if tier == "quick" else [(3, 3), (3, 4), (2, 3)]
     for kind in kinds:
-        for (R, C) in shapes:
+        for (R, C) in (shapes if kind < 4 else shapes[:1]):  # 32-bit element types: same template text, one shape
             vks = [0, 1, 2, 3, 4, 6] if tier == "quick" else [0, 1, 2, 3, 4, 5, 6, 7]
             for vk in vks:
                 for op in range(C10_NOPS):
                     masks = [0]
-                    if op in (0, 4, 16, 12) or tier != "quick":
+                    if op in (0, 4, 16, 12) or (tier != "quick" and kind < 4):
                         masks = [0, 0b010110010 & ((1 << (R * C)) - 1)]
                     for zm in masks:
                         jobs.append({"func": "verif_C10_ops", "args": [kind, vk, op, R, C, zm],
@@ -612,7 +612,7 @@ def c12_jobs(tier):
         for op in range(6):
             for pa in (0, enc([1, 0, 0, 1])):
                 jobs.append({"func": "verif_C12_operands", "args": [kind, op, pa, 0 if op == 3 else pa]})
-    for w in range(4):
+    for w in range(8):
         jobs.append({"func": "verif_C12_scalar", "args": [w]})
     for pa in vp[:3]:
         jobs.append({"func": "verif_C12_ctor", "args": [3, pa]})
@@ -725,7 +725,10 @@ def c04_jobs(tier):
             J("verif_C04_pivots_fp", [kind, 3, perm], mode="fp")
         for perm in range(24):
             J("verif_C04_pivots_fp", [kind, 4, perm], mode="fp")
-        J("verif_C04_pd_reuse", [kind, 2])
+        J("verif_C04_pd_reuse", [kind, 2, 0])
+        J("verif_C04_pd_reuse", [kind, 2, 1])
+        if not quick:
+            J("verif_C04_pd_reuse", [kind, 3, 1])
     return jobs
 
 
@@ -812,6 +815,10 @@ def c06_jobs(tier):
         J("verif_C06_derivative", [1, 3])
         J("verif_C06_derivative", [3, 3])
     J("verif_C06_magicvalues", [2])
+    import math
+    for n in (3, 4):
+        for perm in range(math.factorial(n)):
+            J("verif_C06_pivots", [n, perm], mode="fp")
     return jobs
 
 
@@ -820,7 +827,7 @@ PROPS["C06"] = {
     "patterns": ["./zzverif"],
     "mode": "real", "intmode": "int",
     "jobs": c06_jobs,
-    "reach": ["fastgeneric", "derivative", "magicvalues"],
+    "reach": ["fastgeneric", "derivative", "magicvalues", "C06-pivots"],
     "replay_tol": 1e-6,
     "job_budget_ms": {"quick": 150000, "thorough": 600000},
     "selftest_vars": [],
@@ -836,7 +843,7 @@ def _c01(rt):
     return ("tmpl/zz_verif_c01.go.tmpl", f"zz_verif_c01_{rt}.go", {"RTYPE": rt})
 
 
-C01_NOPS = 27
+C01_NOPS = 28
 
 
 def c01_jobs(tier):
@@ -883,9 +890,13 @@ def c02_jobs(tier):
         jobs.append({"func": "verif_C02_int", "args": [ty], "mode": "fp", "intmode": "bv"})
     for fr in range(3):
         jobs.append({"func": "verif_C02_convert", "args": [fr], "mode": "fp", "intmode": "bv"})
+    # vector reductions with caller-supplied temporaries holding arbitrary values
+    for ty in (0, 1):
+        for op in (0, 1):
+            jobs.append({"func": "verif_C02_smoothmax", "args": [ty, op, 2], "mode": "real", "summarise_logadd": True, "tag": f"smoothmax ty={ty} op={op}"})
     # range consequences (bit-precise, overflow / underflow of exp through its documented range steps)
     for ty in ((0, 2) if tier == "quick" else (0, 1, 2, 3)):
-        for op in range(5):
+        for op in range(6):
             jobs.append({"func": "verif_C02_range", "args": [ty, op], "mode": "fp", "intmode": "int", "precise_feas": True,
                          "obl_cap_ms": 60000, "tag": f"range ty={ty} op={op}"})
     return jobs
@@ -895,7 +906,7 @@ PROPS["C02"] = {
     "overlay": [RT, SCALAR_COMMON, _scalar_real("Real64"), _scalar_real("Real32"), _c01("Real64"), _c01("Real32"), ("root/zz_verif_c02_mixed.go", "zz_verif_c02_mixed.go")],
     "mode": "real", "intmode": "int",
     "jobs": c02_jobs,
-    "reach": ["scalar-spec", "mixed", "int", "convert", "range"],
+    "reach": ["scalar-spec", "mixed", "int", "convert", "range", "smoothmax"],
     "replay_tol": 1e-6,
     "job_budget_ms": {"quick": 120000, "thorough": 400000},
     "selftest_vars": [],
@@ -919,6 +930,8 @@ def c14_jobs(tier):
             J("verif_C14_formula", [fam, kind])
             J("verif_C14_support", [fam, kind], mode="fp")
             J("verif_C14_ctor", [fam, kind], mode="fp")
+            J("verif_C14_boundary", [fam, kind, 0], mode="fp", precise_feas=True, obl_cap_ms=60000)
+            J("verif_C14_boundary", [fam, kind, 1], mode="fp", precise_feas=True, obl_cap_ms=60000)
         J("verif_C14_roundtrip", [fam])
     # families offering Cdf / LogCdf on scalars in closed form: Exponential, Pareto, PowerLaw, GPareto, GEV
     # (Normal, Gamma, ChiSquared go through erfc / GammaP, whose derivative rules are not identities the solver can see)
@@ -932,12 +945,12 @@ PROPS["C14"] = {
     "patterns": ["./zzverif"],
     "mode": "real", "intmode": "int",
     "jobs": c14_jobs,
-    "reach": ["formula", "support", "ctor", "roundtrip", "cdf"],
+    "reach": ["formula", "support", "ctor", "roundtrip", "cdf", "boundary"],
     "replay_tol": 1e-6,
     "job_budget_ms": {"quick": 120000, "thorough": 600000},
     "selftest_vars": [],
     "bounds": {"quick": "15 scalar family instances (Normal, Laplace, Cauchy, Exponential, Pareto, Gamma, Poisson, Geometric, PowerLaw, GPareto xi>0, ChiSquared, GEV xi!=0, Binomial n=3, Binomial after SetN, Beta) with symbolic valid parameters: log-density = textbook formula on the support (real interpretation, "
-                        "log/lgamma heads by name, exp-homomorphism), exactly -Inf strictly outside the support (fp), constructors reject parameters strictly outside the valid region (fp), Clone / SetParameters(GetParameters()) / Real64-held parameters give the same log-density (real interpretation); for the five families with a closed-form Cdf the derivative that automatic differentiation of Cdf yields equals exp(LogPdf), and Cdf = exp(LogCdf)",
+                        "log/lgamma heads by name, exp-homomorphism), exactly -Inf strictly outside the support (fp), never NaN on the boundary of the support (bit-precise; parameters symbolic in [2^-10, 2^10] and, in a second job, from the grid {1/2, 1, 2} with only x symbolic), constructors reject parameters strictly outside the valid region (fp), Clone / SetParameters(GetParameters()) / Real64-held parameters give the same log-density (real interpretation); for the five families with a closed-form Cdf the derivative that automatic differentiation of Cdf yields equals exp(LogPdf), and Cdf = exp(LogCdf)",
                "thorough": "also Real64-held parameters for the formula, support and constructor obligations"},
     "outside": "normalisation (integration), monotonicity and limits of the CDFs, Cdf' = Pdf for the families whose Cdf goes through erfc / GammaP (Normal, Gamma, ChiSquared), vector and matrix families, wrappers (log-transform, translation, mixtures), the remaining scalar families (Binomial, NegativeBinomial, Categorical, GEV, GeneralizedGamma, Delta), behaviour on the boundary of support / parameter region",
     "assumptions": ["floats read as reals for the formula obligations; log, lgamma, log1p uninterpreted by name"],
@@ -960,6 +973,15 @@ def c15_jobs(tier):
             J("verif_C15_marginals", [m, n, zm], obl_cap_ms=40000)
             for final in ((0,) if m == 1 else (0, 1)):
                 J("verif_C15_viterbi", [m, n, zm, final])
+    # posterior of state-set sequences (m = 2): digits per position, 1 = {0}, 2 = {1}, 3 = {0,1}
+    def enc4(ds):
+        v = 0
+        for d in reversed(ds):
+            v = v * 4 + d
+        return v
+    for ds in ([[3, 3], [1, 2], [2, 1, 1, 2], [3, 2, 1, 3], [1, 3, 2, 3], [2, 3, 2]] if quick else
+               [[3, 3], [1, 2], [2, 1, 1, 2], [3, 2, 1, 3], [1, 3, 2, 3], [2, 3, 2], [2, 1, 3, 1, 2], [1, 1, 2, 2], [3, 1, 3, 1]]):
+        J("verif_C15_posterior", [2, len(ds), enc4(ds), 1 if len(ds) >= 4 else 0], obl_cap_ms=60000, tag=f"posterior sets={ds}")
     # float64 forward-backward of Baum-Welch (reused buffers) = generic recursion (in-package harness)
     GEN = ROOT + "/statistics/generic"
     for (m, n, N) in ([(2, 1, 2), (2, 2, 3), (2, 3, 3), (1, 1, 1)] if quick else [(2, 1, 2), (2, 1, 3), (2, 2, 3), (2, 3, 3), (2, 4, 4), (3, 1, 2), (3, 3, 3), (1, 1, 1)]):
@@ -975,15 +997,15 @@ PROPS["C15"] = {
     "patterns": ["./zzverif", "./statistics/generic"],
     "mode": "real", "intmode": "int",
     "jobs": c15_jobs,
-    "reach": ["logpdf", "marginals", "viterbi", "C15-float64fb"],
+    "reach": ["logpdf", "marginals", "viterbi", "C15-float64fb", "posterior"],
     "replay_tol": 1e-6,
     "job_budget_ms": {"quick": 120000, "thorough": 400000},
     "selftest_vars": [],
     "bounds": {"quick": "generic.Hmm with m<=2 states and sequences of length n<=3: symbolic log initial / transition / emission values, zero-probability transitions as -Inf patterns, shared emission maps, final-state restriction; "
-                        "LogPdf = log of the sum over all m^n hidden paths, posterior marginal x likelihood = mass of the paths through the state, marginals sum to one, the Viterbi path has maximal joint probability; the float64 forward-backward tables of Baum-Welch (hmm_optimized, in-package harness) equal the generic ones for sequences of length 1..3 in buffers "
+                        "LogPdf = log of the sum over all m^n hidden paths, posterior marginal x likelihood = mass of the paths through the state, marginals sum to one, the Viterbi path has maximal joint probability; the posterior of a sequence of state sets (m = 2, n <= 4, 6 set patterns) times the likelihood = mass of the paths inside the sets; the float64 forward-backward tables of Baum-Welch (hmm_optimized, in-package harness) equal the generic ones for sequences of length 1..3 in buffers "
                         "that hold arbitrary stale values of a longer record; real interpretation, exp-homomorphism, LogAdd summarised",
                "thorough": "m<=3, n<=4"},
-    "outside": "Posterior of state-set sequences, Baum-Welch beyond its forward-backward tables, mixtures, hierarchical / constrained HMMs, data sets of several sequences, larger models",
+    "outside": "Baum-Welch beyond its forward-backward tables, mixtures, hierarchical / constrained HMMs, data sets of several sequences, larger models",
     "assumptions": ["LogAdd(a,b) is replaced by its summary log(exp a + exp b) (the C02 check discharges that summary against the method bodies)",
                     "floats read as reals; exp/log handled by the exp-homomorphism over atoms E(x)"],
 }
